@@ -494,7 +494,7 @@ def export_eds(od, dest=None, file_info={}, device_commisioning=False):
 
     eds.add_section("Comments")
     i = 0
-    for line in od.comments.splitlines():
+    for line in (od.comments.split("\n") if od.comments else []):
         i += 1
         eds.set("Comments", f"Line{i}", line)
     eds.set("Comments", "Lines", i)
